@@ -123,6 +123,19 @@ int main(int argc, char **argv) {
             vh_int("ms", ms);
             observe();
             vh_end();
+        } else if (vh_is("INITSECU")) {
+            /* INITSECU secs micros : the double secs + micros/1e6 (finer than the millisecond grid) */
+            long long secs = vh_argi(1), us = vh_argi(2);
+            double v = (double)secs + (double)us / 1000000.0;
+            aws_date_time_init_epoch_secs(&dt, v);
+            have = true;
+            vh_begin("InitU");
+            vh_int("d", secs / 86400);
+            vh_int("s", secs % 86400);
+            vh_int("us", us);
+            observe();
+            vh_end();
+            have = false; /* nothing is formatted from it: only the epoch views are judged */
         } else if (vh_is("FMT")) {
             /* FMT fmt short cap prelen */
             if (!have) {
